@@ -158,6 +158,17 @@ struct Sim {
     votes: BTreeMap<(usize, u64), usize>,
     double_votes: u64,
     divergent_appends: u64,
+    /// a leader advanced its commit to an entry of an earlier term than its own (Raft's
+    /// "commit only entries of the current term by counting replicas" rule broken)
+    old_term_commits: u64,
+    /// a leader advanced its commit to an entry that fewer than a quorum of nodes hold
+    stale_quorum_commits: u64,
+    /// per committed entry (index, term, data): 1 = committed by a leader of a later term,
+    /// 2 = committed while fewer than a quorum held it
+    entry_flags: BTreeMap<(u64, u64, u8), u8>,
+    /// nodes that accepted an append on a divergent prefix
+    divergent_nodes: BTreeSet<usize>,
+    leader_commit_seen: Vec<BTreeSet<(u64, u64, u8)>>,
     committed_seen: Vec<BTreeMap<u64, (u64, u8)>>,
     commit_seen: Vec<u64>,
     /// entries committed by a node while it was leader: index -> (term, data)
@@ -208,6 +219,11 @@ impl Sim {
             votes: BTreeMap::new(),
             double_votes: 0,
             divergent_appends: 0,
+            old_term_commits: 0,
+            stale_quorum_commits: 0,
+            entry_flags: BTreeMap::new(),
+            divergent_nodes: BTreeSet::new(),
+            leader_commit_seen: vec![BTreeSet::new(); n],
             committed_seen: vec![BTreeMap::new(); n],
             commit_seen: vec![0; n],
             acked: BTreeMap::new(),
@@ -289,6 +305,7 @@ impl Sim {
         let before = self.nodes[dst].storage.entries.clone();
         let response = block_on(self.nodes[dst].request(r));
         self.delivered += 1;
+        self.observe_commits();
         if kind == 3 && response.v_ok() {
             if would_double_vote {
                 self.double_votes += 1;
@@ -297,6 +314,18 @@ impl Sim {
         }
         if kind == 0 && divergent && response.v_ok() && self.nodes[dst].storage.entries != before {
             self.divergent_appends += 1;
+            self.divergent_nodes.insert(dst);
+            // the stale entries that survived below the accepted one are what later gets
+            // committed and propagated in place of the leader's: they carry the cause with them
+            if let Some((first, _)) = r.v_entries().first() {
+                let a = Self::latest_entries(&self.nodes[dst].storage, *first);
+                let b = Self::latest_entries(&self.nodes[src].storage, *first);
+                for (idx, e) in a {
+                    if b.get(&idx) != Some(&e) {
+                        *self.entry_flags.entry((idx, e.0, e.1)).or_default() |= 4;
+                    }
+                }
+            }
         }
         self.trace.push(format!(
             "  {src}->{dst} {} term {} log {:?} entries {:?} => {}",
@@ -463,6 +492,7 @@ impl Sim {
                     if let Ok(Some(requests)) = block_on(self.nodes[s].response(&r, &resp)) {
                         self.enqueue(s, requests);
                     }
+                    self.observe_commits();
                 }
             }
             for i in 0..self.n {
@@ -477,13 +507,22 @@ impl Sim {
         }
     }
 
-    fn cause(&self) -> &'static str {
-        match (self.double_votes > 0, self.divergent_appends > 0) {
-            (true, true) => " (after a node voted twice in one term and an append was accepted on a divergent prefix)",
-            (true, false) => " (after a node voted twice in one term)",
-            (false, true) => " (after an append was accepted on a divergent prefix)",
-            (false, false) => "",
+    /// the trigger predicates that fired in this history, as text
+    fn cause(&self) -> String {
+        let mut c = vec![];
+        if self.double_votes > 0 {
+            c.push("a node voted twice in one term");
         }
+        if self.divergent_appends > 0 {
+            c.push("an append was accepted on a divergent prefix");
+        }
+        if self.old_term_commits > 0 {
+            c.push("a leader committed an entry of an earlier term by counting replicas");
+        }
+        if self.stale_quorum_commits > 0 {
+            c.push("a leader committed an entry held by fewer than a quorum");
+        }
+        if c.is_empty() { String::new() } else { format!(" (after {})", c.join(" and ")) }
     }
 
     /// Signature of a C28 agreement failure (different entries committed at one index, on one
@@ -491,17 +530,72 @@ impl Sim {
     /// append accepted on a divergent prefix (and no double vote) these symptoms share that one
     /// root cause and one signature, which is the listed known finding; otherwise the symptom
     /// itself (plus any other trigger seen) is the signature.
-    fn agreement_sig(&self, symptom: &str) -> String {
-        if self.divergent_appends > 0 && self.double_votes == 0 {
-            "committed entries disagree or change after an append was accepted on a divergent prefix".to_string()
-        } else {
-            format!("{symptom}{}", self.cause())
+    /// Signature of an agreement failure between the entries `a` and `b` (index, term, data)
+    /// held by the nodes `na` and `nb`: the cause is attributed to what happened to THESE entries
+    /// and nodes, not to anything that happened somewhere in the history, so that a listed root
+    /// cause never absorbs a failure it did not produce.
+    fn agreement_sig(&self, symptom: &str, nodes: &[usize], entries: &[(u64, u64, u8)]) -> String {
+        let flags = entries.iter().fold(0u8, |f, e| f | self.entry_flags.get(e).cloned().unwrap_or(0));
+        // root cause A: one of the conflicting nodes accepted an append on a divergent prefix,
+        // or one of the entries was committed by counting such a follower as a replica (it then
+        // was held by fewer than a quorum)
+        let a = flags & 4 != 0 || nodes.iter().any(|n| self.divergent_nodes.contains(n)) || (flags & 2 != 0 && self.divergent_appends > 0);
+        // root cause B: one of the entries was committed by a leader of a later term
+        let b = flags & 1 != 0;
+        // unlisted: committed below a quorum although no follower ever diverged
+        let stale = flags & 2 != 0 && self.divergent_appends == 0;
+        let mut c = vec![];
+        if self.double_votes > 0 {
+            c.push("a node voted twice in one term");
+        }
+        if a {
+            c.push("an append was accepted on a divergent prefix");
+        }
+        if b {
+            c.push("an entry was committed by a leader of a later term by counting replicas");
+        }
+        if stale {
+            c.push("an entry was committed while fewer than a quorum held it");
+        }
+        let listed = self.double_votes == 0 && !stale && (a || b);
+        let cause = if c.is_empty() { String::new() } else { format!(" (after {})", c.join(" and ")) };
+        if listed { format!("committed entries disagree or change{cause}") } else { format!("{symptom}{cause}") }
+    }
+
+    /// Trigger predicates evaluated at the moment a leader advances its commit (called after
+    /// every primitive event, also inside the healthy/partitioned macro actions, so that "who
+    /// held the entry when it was committed" is not judged after the fact).
+    fn observe_commits(&mut self) {
+        for i in 0..self.n {
+            if self.nodes[i].v_state() == VState::Leader {
+                let term = self.nodes[i].v_term();
+                let quorum = self.n / 2 + 1;
+                let newly: Vec<(u64, u64, u8)> = self.nodes[i].storage.entries.iter().filter(|e| e.committed && !self.leader_commit_seen[i].contains(&(e.index, e.term, e.data))).map(|e| (e.index, e.term, e.data)).collect();
+                for (idx, t, d) in newly {
+                    self.leader_commit_seen[i].insert((idx, t, d));
+                    if t < term {
+                        self.old_term_commits += 1;
+                        *self.entry_flags.entry((idx, t, d)).or_default() |= 1;
+                    }
+                    let holders = (0..self.n).filter(|k| self.nodes[*k].storage.entries.iter().any(|x| x.index == idx && x.term == t && x.data == d)).count();
+                    if holders < quorum {
+                        self.stale_quorum_commits += 1;
+                        *self.entry_flags.entry((idx, t, d)).or_default() |= 2;
+                    }
+                }
+            } else {
+                // what a node commits while it is not a leader is not an acknowledgement point
+                for e in self.nodes[i].storage.entries.iter().filter(|e| e.committed) {
+                    self.leader_commit_seen[i].insert((e.index, e.term, e.data));
+                }
+            }
         }
     }
 
     /// Invariants checked after every action. `which`: property being decided.
     fn check(&mut self, which: Which) -> Result<(), Fail> {
-        // observers first
+        self.observe_commits();
+        // observers
         for i in 0..self.n {
             let st = self.nodes[i].v_state();
             let term = self.nodes[i].v_term();
@@ -515,8 +609,19 @@ impl Sim {
                     let log = Self::latest_entries(&self.nodes[i].storage, u64::MAX);
                     for (idx, e) in &self.acked {
                         if log.get(idx) != Some(e) {
+                            let mut c = vec![];
+                            if self.double_votes > 0 {
+                                c.push("a node voted twice in one term");
+                            }
+                            if !self.divergent_nodes.is_empty() {
+                                c.push("an append was accepted on a divergent prefix");
+                            }
+                            if self.entry_flags.get(&(*idx, e.0, e.1)).cloned().unwrap_or(0) & 1 != 0 {
+                                c.push("the entry was committed by a leader of a later term by counting replicas");
+                            }
+                            let cause = if c.is_empty() { String::new() } else { format!(" (after {})", c.join(" and ")) };
                             return Err(Fail::new(
-                                format!("entry committed by a leader is missing at a later leader{}", self.cause()),
+                                format!("entry committed by a leader is missing at a later leader{cause}"),
                                 format!("node {i} became leader of term {term} without entry index {idx} {e:?}; its log {log:?}\ntrace:\n{}", self.trace.join("\n")),
                             ));
                         }
@@ -544,7 +649,7 @@ impl Sim {
                 if let Some(prev) = committed.insert(e.index, (e.term, e.data)) {
                     if matches!(which, Which::C28) && prev != (e.term, e.data) {
                         return Err(Fail::new(
-                            self.agreement_sig("a node committed two different entries at one index"),
+                            self.agreement_sig("a node committed two different entries at one index", &[i], &[(e.index, prev.0, prev.1), (e.index, e.term, e.data)]),
                             format!("node {i} index {} {prev:?} and {:?}\ntrace:\n{}", e.index, (e.term, e.data), self.trace.join("\n")),
                         ));
                     }
@@ -554,7 +659,7 @@ impl Sim {
                 for (idx, e) in &self.committed_seen[i] {
                     if committed.get(idx) != Some(e) {
                         return Err(Fail::new(
-                            self.agreement_sig("a committed entry was removed or replaced"),
+                            self.agreement_sig("a committed entry was removed or replaced", &[i], &[(*idx, e.0, e.1)]),
                             format!("node {i} index {idx}: was {e:?}, now {:?}\ntrace:\n{}", committed.get(idx), self.trace.join("\n")),
                         ));
                     }
@@ -573,7 +678,7 @@ impl Sim {
                     if let Some((t, d, other)) = all.get(idx) {
                         if (*t, *d) != *e {
                             return Err(Fail::new(
-                                self.agreement_sig("two nodes committed different entries at one index"),
+                                self.agreement_sig("two nodes committed different entries at one index", &[*other, i], &[(*idx, *t, *d), (*idx, e.0, e.1)]),
                                 format!("index {idx}: node {other} has {:?}, node {i} has {e:?}\ntrace:\n{}", (t, d), self.trace.join("\n")),
                             ));
                         }
@@ -611,6 +716,8 @@ struct RunInfo {
     leader_changes: u64,
     double_votes: u64,
     divergent_appends: u64,
+    old_term_commits: u64,
+    stale_quorum_commits: u64,
     excluded: u64,
     acked: usize,
     delivered: u64,
@@ -635,6 +742,8 @@ fn run_schedule(s: &Schedule, which: Which, pass_b: bool) -> Result<RunInfo, Fai
         leader_changes: sim.leader_changes,
         double_votes: sim.double_votes,
         divergent_appends: sim.divergent_appends,
+        old_term_commits: sim.old_term_commits,
+        stale_quorum_commits: sim.stale_quorum_commits,
         excluded: sim.excluded,
         acked: sim.acked.len(),
         delivered: sim.delivered,
@@ -712,6 +821,12 @@ fn case_for(which: Which, pass_b: bool) -> impl Fn(&Schedule) -> CaseResult {
         }
         if info.divergent_appends > 0 {
             ci.label("append accepted on a divergent prefix");
+        }
+        if info.old_term_commits > 0 {
+            ci.label("a leader committed an entry of an earlier term");
+        }
+        if info.stale_quorum_commits > 0 {
+            ci.label("a leader committed an entry held by fewer than a quorum");
         }
         ci.count("deliveries excluded by construction (pass B)", info.excluded);
         ci.count("requests delivered", info.delivered);
